@@ -2,7 +2,9 @@
     with the model's prediction (trace validation; the harness writes [case] terms).
 
     By theorem [today_in_order] every schedule of the model ends, at quiescence, in the state
-    [apply_all] computes, so that single state is the prediction. *)
+    [apply_all] computes (the message-order semantics), so that single state is the prediction.
+    (When the table obligation [today_all_inline] fails the theorem is gone; the comparison is
+    still made against the message-order state, which is what the property demands.) *)
 From Coq Require Import List NArith Bool String.
 Import ListNotations.
 From EV Require Import Base.LTS Gen.C27_Notify C27.Model.
@@ -30,7 +32,5 @@ Definition predicted (k : case) : docs :=
   apply_all e (k_hist k) {| d_open := fun _ => None; d_vfs := lookup (k_init k) |}.
 
 Definition check_case (k : case) : bool :=
-  (* the prediction is only meaningful when today's table handles the three notifications inline *)
-  all_inline today &&
   let d := predicted k in
   forallb (fun p => opt_eqb (d_open d (fst p)) (fst (snd p)) && opt_eqb (d_vfs d (fst p)) (snd (snd p))) (k_obs k).
